@@ -112,6 +112,11 @@ theorem no_arch_items_outside_backends :
     archRefs.all (fun r => (noStdBuilds ++ stdBuilds).all (fun b => !compiledIn b r)) = true := by
   decide +kernel
 
+/-- **C10 (no build-time CPU probing).** The crate has no build script: every `cfg` the availability checks are conditioned on
+is a target feature of the *compilation target* or a cargo feature — nothing measured on the build machine (whose CPU need
+not be the one that runs the binary) can switch a compile-time "available" answer on. -/
+theorem no_build_script : buildScripts = [] := by decide
+
 /-- the kernels only reach the backend through trait methods (so the per-method theorem covers them) -/
 theorem kernels_use_trait_methods_only : kernelMethods.length = 20 := by decide
 
